@@ -47,13 +47,18 @@ def items(tier):
     for ch in E.chunks(specs, 6):
         its.append({"key": f"{ch[0][0]}..{ch[-1][0]}", "kind": "models", "specs": [[k, s] for k, s in ch],
                     "sample": {"first_key": ch[0][0], "first_text": models.spec_text(ch[0][1]), "n": len(ch)}})
+    from checks import c13
+    for ch in E.chunks(c13.rich_family(), 3):
+        its.append({"key": f"split|{ch[0][0]}..{ch[-1][0]}", "kind": "split", "specs": [[k, s] for k, s in ch],
+                    "sample": {"first_key": ch[0][0], "what": "sub-models with missing variables: rhs, monitor_values, missing_values, schemes batched"}})
     return its
 
 
-def compare_batched(ns, fname, sidx, pidx, pts, res, tag, fail, names_of_interest=None):
-    """pts: list of dicts with t + states + params.  Runs the 4 sharing modes."""
+def compare_batched(ns, fname, sidx, pidx, pts, res, tag, fail, names_of_interest=None, midx=None):
+    """pts: list of dicts with t + states + params (+ missing variables, always per column).  Runs the 4 sharing modes."""
     n, npar = len(sidx), len(pidx)
     is_scheme = fname not in ("rhs", "monitor_values", "missing_values")
+    midx = midx or {}
 
     def arrays(sub):
         S = numpy.zeros((n, len(sub)))
@@ -65,13 +70,18 @@ def compare_batched(ns, fname, sidx, pidx, pts, res, tag, fail, names_of_interes
             for nm, i in pidx.items():
                 P[i, j] = pt.get(nm, 0.0)
             T[j] = pt["t"]
-        return S, P, T
+        M = numpy.zeros((len(midx), len(sub)))
+        for j, pt in enumerate(sub):
+            for nm, i in midx.items():
+                M[i, j] = pt.get(nm, 0.0)
+        return S, P, T, M
 
-    def call(s, t, p):
+    def call(s, t, p, m=None):
+        extra = [m] if midx else []
         with numpy.errstate(all="ignore"):
             if is_scheme:
-                return ns[fname](s, t, 0.125, p)
-            return ns[fname](t, s, p)
+                return ns[fname](s, t, 0.125, p, *extra)
+            return ns[fname](t, s, p, *extra)
 
     pnames = sorted(pidx)
     distinct = set()
@@ -83,19 +93,19 @@ def compare_batched(ns, fname, sidx, pidx, pts, res, tag, fail, names_of_interes
         for k, sub in groups.items():
             if len(sub) < 2:
                 continue
-            S, P, T = arrays(sub)
+            S, P, T, M = arrays(sub)
             p_arg = P[:, 0].copy() if pshared else P
             t_arg = float(T[0]) if tshared else T
             mode = f"p {'shared' if pshared else 'per-column'}/t {'shared' if tshared else 'per-column'}"
             scal = []
             for j in range(len(sub)):
                 try:
-                    scal.append(numpy.asarray(call(S[:, j].copy(), float(T[j]), P[:, j].copy()), dtype=float))
+                    scal.append(numpy.asarray(call(S[:, j].copy(), float(T[j]), P[:, j].copy(), M[:, j].copy()), dtype=float))
                 except Exception as ex:
                     scal.append(ex)
             res["transitions"] += len(sub) + 1
             try:
-                out = numpy.asarray(call(S.copy(), t_arg, p_arg), dtype=float)
+                out = numpy.asarray(call(S.copy(), t_arg, p_arg, M.copy()), dtype=float)
             except Exception as ex:
                 if all(isinstance(s_, Exception) for s_ in scal):
                     continue
@@ -168,9 +178,48 @@ def _full(state_dict):
     return dict(state_dict)
 
 
+def run_split(item, res):
+    """sub-models obtained by splitting at every component: all functions incl. missing_values, with a missing_variables array of shape (n_missing, N)"""
+    import itertools
+    for key, sp in item["specs"]:
+        text = models.spec_text(sp)
+        spn = models.norm(sp)
+        ode = drive.load(text)
+        comps = sorted({(spn.get("comp") or {}).get(n, "") for n, _ in spn["states"] + spn["params"] + spn["assigns"]})
+        for cname in comps:
+            comp = ode.get_component(cname)
+            parts = {"A": comp.to_ode(), "B": ode - comp}
+            for tag, other in (("A", "B"), ("B", "A")):
+                sub, oth = parts[tag], parts[other]
+                if not sub.states:
+                    continue
+                res["states"] += 1
+
+                def fail(cls, what, detail=None, _k=key, _sp=sp):
+                    res["failures"].append({"finding": f"{ID}|split|{cls}", "what": f"{_k} part {tag} of the split at '{cname}': {what}", "size": len(text), "detail": dict(detail or {}, text=text),
+                                            "replay_item": {"key": "split|" + _k, "kind": "split", "specs": [[_k, _sp]]}})
+                try:
+                    ns = drive.exec_py(drive.py_code(sub, scheme=list(models.SCHEMES), stiff_states=[s_.name for s_ in sub.states], missing_values=oth.missing_variables or None))
+                except Exception as ex:
+                    fail("codegen-raises", repr(ex)[:200])
+                    continue
+                names = ["t"] + sorted(ns["state"]) + sorted(ns["parameter"]) + sorted(sub.missing_variables)
+                vals = (-1.0, 0.5, 2.0) if len(names) <= 6 else (-1.0, 2.0)
+                pts = [dict(zip(names, tup)) for tup in itertools.product(vals, repeat=len(names))][:729]
+                d = set()
+                fns = ["rhs", "monitor_values"] + list(models.SCHEMES) + (["missing_values"] if "missing_values" in ns else [])
+                for fname in fns:
+                    d |= compare_batched(ns, fname, ns["state"], ns["parameter"], pts, res, key, fail, midx=dict(sub.missing_variables))
+                if len(d) >= 2:
+                    res["nontrivial"] += 1
+
+
 def run_item(item):
     drive.gx()
     res = c01.new_res()
+    if item["kind"] == "split":
+        run_split(item, res)
+        return res
     if item["kind"] == "pack":
         run_pack([L.from_json(e) for e in item["exprs"]], res)
         return res
